@@ -28,8 +28,9 @@ EXPLANATION = (
 )
 ASSUMPTIONS = [
     "D-eigen: the vendored stand-in /verif/replay/standin/Eigen/Dense behaves like Eigen for fixed-size matrices (real Eigen is not available offline); compilation is checked against it only",
-    "the expression grammar printed by sympy.ccode is parsed with python's ast (same precedence for + - * /; pow and elementary functions as calls); integer/integer division is rejected",
-    "elementary functions uninterpreted (sound: may answer undecided, never a wrong proof); floats as reals",
+    "the expression grammar printed by sympy.ccode is parsed with python's ast after a syntactic rewrite of C ternaries / && / || / ! (same precedence for + - * / and comparisons; pow and elementary functions as calls; a comparison used arithmetically is 0/1); integer/integer division is rejected",
+    "elementary functions uninterpreted (sound: may answer undecided, never a wrong proof) except fabs / Abs / sign / Piecewise, which are their definitions; floats as reals",
+    "D-diff (weakened after D12/D14): sympy's diff / jacobian entry is the partial derivative of the real function only when it is returned in closed form; D-dummy, D-xr, D-ren (renaming theory, pvc/sympy_model.py) for cpp._partial_derivative; the per-program oracle is the real-valued derivative (an entry sympy leaves unevaluated: exact central difference, h = 2^-10)",
     "symbol names are C++ identifiers not colliding with generated members (premise of the property)",
     "D-subs: sympy's e.subs(pairs) has the value of e with each member symbol read through its accessor (assumed; exercised per program by (b))",
     "an obligation of (b) that the solver does not decide is evaluated numerically at two points: a difference is a violation, agreement is recorded as undecided",
